@@ -118,31 +118,7 @@ LEMMAS = ["HalfCell", "NonEmpty", "Characterisation", "AtMostTwo", "ShiftInvaria
 def apalache_lemmas(chk):
     """Unbounded (all integers) one-axis lemmas of spec/MinImageLemma.tla, discharged symbolically by Apalache:
     every lemma must hold, the deliberately false HalfCellStrict must be refuted (non-vacuity)."""
-    import concurrent.futures as cf
-    import shutil
-    import subprocess
-    import tempfile
-    tmp = tempfile.mkdtemp(prefix="verif_apa_")
-
-    def one(inv):
-        out = os.path.join(tmp, inv)
-        p = subprocess.run(["apalache-mc", "check", "--init=Init", f"--inv={inv}", "--length=0", f"--out-dir={out}",
-                            f"--run-dir={out}/run", os.path.join(common.SPEC, "MinImageLemma.tla")],
-                           capture_output=True, text=True, timeout=1200, cwd=tmp)
-        txt = p.stdout + p.stderr
-        return inv, ("NoError" if "The outcome is: NoError" in txt else "Error" if "The outcome is: Error" in txt else "failed"), txt[-1500:]
-    try:
-        with cf.ThreadPoolExecutor(max_workers=4) as ex:
-            results = list(ex.map(one, LEMMAS + ["HalfCellStrict"]))
-    finally:
-        shutil.rmtree(tmp, ignore_errors=True)
-    summary = {}
-    for inv, verdict, tail in results:
-        summary[inv] = verdict
-        want = "Error" if inv == "HalfCellStrict" else "NoError"
-        if verdict != want:
-            raise common.MachineryError(f"Apalache: lemma {inv} of MinImageLemma.tla gave {verdict}, expected {want}\n{tail}")
-    chk.extra["apalache_unbounded_lemmas"] = summary
+    common.apalache_lemmas(chk, "MinImageLemma", LEMMAS, ["HalfCellStrict"])
     chk.assumptions.append("MinImageLemma.tla (Apalache 0.58, SMT over unbounded integers): per-axis half-cell, characterisation, "
                            "at most two members, shift invariance, idempotence and shortest-image lemmas hold for ALL integers; "
                            "trusted: Apalache/Z3 and the Euclidean-division witness f0 chosen in Init")
